@@ -144,6 +144,8 @@ def _work_rand(args):
                 axis *= 10 ** rng.uniform(-6, 6) / np.linalg.norm(axis)
                 if rng.random() < 0.2:
                     axis = np.eye(3)[rng.integers(0, 3)] * 10 ** rng.uniform(-6, 6) * rng.choice([-1, 1])
+                elif rng.random() < 0.2:
+                    axis = axis / np.linalg.norm(axis) * (1.0 + float(rng.choice([9e-6, -9e-6, 3e-4, 1e-9])))     # almost, not exactly, a unit vector
                 # any angle, the special ones, and small angles of every decade (a Monte Carlo step is often small)
                 theta = float(rng.choice([rng.uniform(-20, 20), 0.0, math.pi, -math.pi / 2, 2 * math.pi,
                                           rng.choice([-1, 1]) * 10.0 ** (-rng.uniform(1.0, 9.0)), rng.uniform(-0.05, 0.05)]))
